@@ -419,26 +419,6 @@ Proof.
   - destruct (is_upper a && is_upper b && is_lower d); [right; right | right]; apply IH; exact H.
 Qed.
 
-Lemma collapse_us_In_inv : forall s c, In c (collapse_us s) -> In c s.
-Proof.
-  induction s as [|a s IH]; intros c H; [exact H|]. destruct s as [|b r]; [exact H|].
-  change (collapse_us (a :: b :: r)) with
-    (if is_us a && is_us b then collapse_us (b :: r) else a :: collapse_us (b :: r)) in H.
-  destruct (is_us a && is_us b).
-  - right. apply IH. exact H.
-  - destruct H as [<-|H]; [left; reflexivity | right; apply IH; exact H].
-Qed.
-
-Lemma collapse_us_In : forall s c, In c s -> is_us c = false -> In c (collapse_us s).
-Proof.
-  induction s as [|a s IH]; intros c H Hc; [exact H|]. destruct s as [|b r]; [exact H|].
-  change (collapse_us (a :: b :: r)) with
-    (if is_us a && is_us b then collapse_us (b :: r) else a :: collapse_us (b :: r)).
-  destruct (is_us a && is_us b) eqn:E.
-  - destruct H as [<-|H]; [apply andb_true_iff in E; destruct E; congruence | apply IH; assumption].
-  - destruct H as [<-|H]; [left; reflexivity | right; apply IH; assumption].
-Qed.
-
 Lemma alnum_not_us : forall c, is_alnum c = true -> is_us c = false.
 Proof. intros c. unfold is_alnum, is_alpha, is_upper, is_lower, is_digit, is_us. lia. Qed.
 Lemma alnum_not_brace : forall c, is_alnum c = true -> is_brace c = false.
@@ -447,11 +427,24 @@ Proof. intros c. unfold is_alnum, is_alpha, is_upper, is_lower, is_digit, is_bra
 Lemma has_alnum_ex : forall s, has_alnum s = true <-> exists c, In c s /\ is_alnum c = true.
 Proof. intro s. apply existsb_exists. Qed.
 
-Definition method_s3 (s : str) : str :=
-  map (fun c => if is_ident_char c then c else 95) (camel2 (camel1 (filter (fun c => negb (is_brace c)) s))).
+Lemma norm_go_In : forall s st pd c, In c (norm_go st pd s) -> In c s \/ c = 95.
+Proof.
+  induction s as [|x s IH]; intros st pd c H; simpl in H; [contradiction|].
+  destruct (is_us x).
+  - destruct (IH _ _ _ H) as [H1|H1]; [left; right; exact H1 | right; exact H1].
+  - apply in_app_or in H. destruct H as [H|H].
+    + destruct pd; [destruct H as [H|H]; [subst c; right; reflexivity | destruct H] | destruct H].
+    + destruct H as [<-|H]; [left; left; reflexivity|].
+      destruct (IH _ _ _ H) as [H1|H1]; [left; right; exact H1 | right; exact H1].
+Qed.
 
-Lemma method_core_unfold : forall s, method_core s = map lower_ascii (strip_us (collapse_us (method_s3 s))).
-Proof. reflexivity. Qed.
+Lemma norm_go_nonempty : forall s st pd, (exists c, In c s /\ is_us c = false) -> norm_go st pd s <> [].
+Proof.
+  induction s as [|x s IH]; intros st pd [c [Hin Hc]]; [destruct Hin|]. simpl.
+  destruct (is_us x) eqn:E.
+  - apply IH. destruct Hin as [<-|Hin]; [congruence | eauto].
+  - destruct pd; discriminate.
+Qed.
 
 Lemma method_s3_chars : forall s, forallb is_ident_char (method_s3 s) = true.
 Proof.
@@ -462,23 +455,21 @@ Qed.
 
 Lemma method_core_chars : forall s, forallb is_ident_char (method_core s) = true.
 Proof.
-  intro s. rewrite method_core_unfold. apply forallb_forall. intros x Hx.
+  intro s. unfold method_core, norm_us. apply forallb_forall. intros x Hx.
   apply in_map_iff in Hx. destruct Hx as [c [<- Hc]]. apply lower_ascii_ident_char.
-  apply strip_us_In, collapse_us_In_inv in Hc.
-  pose proof (method_s3_chars s) as H. rewrite forallb_forall in H. apply H, Hc.
+  destruct (norm_go_In _ _ _ _ Hc) as [H|H]; [|subst c; reflexivity].
+  pose proof (method_s3_chars s) as Hs. rewrite forallb_forall in Hs. apply Hs, H.
 Qed.
 
 Lemma method_core_nonempty : forall s, has_alnum s = true -> method_core s <> [].
 Proof.
   intros s H. apply has_alnum_ex in H. destruct H as [c [Hin Hc]].
-  rewrite method_core_unfold.
   assert (H3 : In c (method_s3 s)).
   { unfold method_s3. apply in_map_iff. exists c. split.
     - rewrite (is_alnum_ident_char c Hc). reflexivity.
     - apply camel2_In, camel1_In. apply filter_In. split; [exact Hin|]. rewrite (alnum_not_brace c Hc). reflexivity. }
-  destruct (strip_us_head (collapse_us (method_s3 s))) as [x [r [E _]]].
-  { exists c. split; [apply collapse_us_In; [exact H3 | apply alnum_not_us, Hc] | apply alnum_not_us, Hc]. }
-  rewrite E. discriminate.
+  unfold method_core, norm_us. intro E. apply map_eq_nil in E. revert E. apply norm_go_nonempty.
+  exists c. split; [exact H3 | apply alnum_not_us, Hc].
 Qed.
 
 (* F20b excluded: a name with an ASCII letter or digit always gives a valid method / field / parameter name *)
@@ -849,3 +840,139 @@ Section TagProofs.
       apply lower_ascii_ident_char. rewrite forallb_forall in Hch. apply Hch, Hy.
   Qed.
 End TagProofs.
+
+(* ================================================================= appending "_<digits>" to an operation id *)
+Definition nonus (c : N) : bool := negb (is_us c).
+Definition has_core (s : str) : bool := existsb nonus (method_s3 s).
+Definition digit_pre (m : str) : str := if starts_digit m then 95 :: m else m.
+
+Lemma norm_go_nonus_id : forall d st, forallb nonus d = true -> norm_go st false d = d.
+Proof.
+  induction d as [|c d IH]; intros st H; [reflexivity|]. simpl in H. apply andb_true_iff in H. destruct H as [Hc Hd].
+  simpl. unfold nonus in Hc. apply negb_true_iff in Hc. rewrite Hc. simpl. rewrite IH by exact Hd. reflexivity.
+Qed.
+
+Lemma norm_go_nonus_block : forall d st pd, forallb nonus d = true -> d <> [] ->
+  norm_go st pd d = (if pd then [95] else []) ++ d.
+Proof.
+  intros [|c d] st pd H Hne; [congruence|]. simpl in H. apply andb_true_iff in H. destruct H as [Hc Hd].
+  simpl. unfold nonus in Hc. apply negb_true_iff in Hc. rewrite Hc. rewrite norm_go_nonus_id by exact Hd.
+  destruct pd; reflexivity.
+Qed.
+
+Lemma norm_go_app_us : forall z st pd d, forallb nonus d = true -> d <> [] ->
+  norm_go st pd (z ++ 95 :: d) = norm_go st pd z ++ (if st || existsb nonus z then 95 :: d else d).
+Proof.
+  induction z as [|c z IH]; intros st pd d Hd Hne.
+  - simpl. rewrite norm_go_nonus_block by assumption. rewrite orb_false_r. destruct st; reflexivity.
+  - simpl. destruct (is_us c) eqn:E.
+    + rewrite IH by assumption. unfold nonus at 2. rewrite E. reflexivity.
+    + rewrite IH by assumption. unfold nonus at 2. rewrite E. simpl. rewrite orb_true_r.
+      rewrite <- app_assoc. reflexivity.
+Qed.
+
+Lemma norm_go_all_us : forall z st pd, existsb nonus z = false -> norm_go st pd z = [].
+Proof.
+  induction z as [|c z IH]; intros st pd H; [reflexivity|]. simpl in *. apply orb_false_iff in H. destruct H as [Hc Hz].
+  unfold nonus in Hc. apply negb_false_iff in Hc. rewrite Hc. apply IH, Hz.
+Qed.
+
+Lemma camel1_cons2 : forall a b r, camel1 (a :: b :: r) =
+  if is_lower_or_digit a && is_upper b then a :: 95 :: camel1 (b :: r) else a :: camel1 (b :: r).
+Proof. reflexivity. Qed.
+Lemma camel2_cons3 : forall a b c r, camel2 (a :: b :: c :: r) =
+  if is_upper a && is_upper b && is_lower c then a :: 95 :: camel2 (b :: c :: r) else a :: camel2 (b :: c :: r).
+Proof. reflexivity. Qed.
+
+Definition noupper (c : N) : bool := negb (is_upper c).
+
+Lemma camel1_fix : forall y, forallb noupper y = true -> camel1 y = y.
+Proof.
+  induction y as [|a y IH]; intro H; [reflexivity|]. destruct y as [|b r]; [reflexivity|].
+  rewrite camel1_cons2. simpl in H. apply andb_true_iff in H. destruct H as [_ H].
+  assert (Hb : is_upper b = false) by (simpl in H; apply andb_true_iff in H; destruct H as [H _]; apply negb_true_iff, H).
+  rewrite Hb, andb_false_r. rewrite IH by exact H. reflexivity.
+Qed.
+
+Lemma camel2_fix : forall y, forallb noupper y = true -> camel2 y = y.
+Proof.
+  induction y as [|a y IH]; intro H; [reflexivity|]. destruct y as [|b [|c r]]; try reflexivity.
+  rewrite camel2_cons3. simpl in H. apply andb_true_iff in H. destruct H as [Ha H].
+  apply negb_true_iff in Ha. rewrite Ha. cbn [andb]. rewrite IH by exact H. reflexivity.
+Qed.
+
+Lemma camel1_app : forall x c y, is_upper c = false -> camel1 (c :: y) = c :: y ->
+  camel1 (x ++ c :: y) = camel1 x ++ c :: y.
+Proof.
+  induction x as [|a x IH]; intros c y Hc Hy; [exact Hy|].
+  destruct x as [|b r].
+  - simpl app. rewrite camel1_cons2, Hc, andb_false_r, Hy. reflexivity.
+  - change ((a :: b :: r) ++ c :: y) with (a :: b :: (r ++ c :: y)). rewrite !camel1_cons2.
+    change (b :: r ++ c :: y) with ((b :: r) ++ c :: y). rewrite IH by assumption.
+    destruct (is_lower_or_digit a && is_upper b); reflexivity.
+Qed.
+
+Lemma camel2_app : forall x c y, is_upper c = false -> is_lower c = false -> camel2 (c :: y) = c :: y ->
+  camel2 (x ++ c :: y) = camel2 x ++ c :: y.
+Proof.
+  induction x as [|a x IH]; intros c y Hu Hl Hy; [exact Hy|].
+  destruct x as [|b [|d r]].
+  - simpl app. destruct y as [|y1 y']; [reflexivity|].
+    rewrite camel2_cons3, Hu, andb_false_r. cbn [andb]. rewrite Hy. reflexivity.
+  - change ([a; b] ++ c :: y) with (a :: b :: c :: y). rewrite camel2_cons3, Hl, andb_false_r.
+    change (b :: c :: y) with ([b] ++ c :: y). rewrite IH by assumption. reflexivity.
+  - change ((a :: b :: d :: r) ++ c :: y) with (a :: b :: d :: (r ++ c :: y)). rewrite !camel2_cons3.
+    change (b :: d :: r ++ c :: y) with ((b :: d :: r) ++ c :: y). rewrite IH by assumption.
+    destruct (is_upper a && is_upper b && is_lower d); reflexivity.
+Qed.
+
+Lemma digit_facts : forall c, is_digit c = true ->
+  is_upper c = false /\ is_lower c = false /\ is_brace c = false /\ is_us c = false /\ is_ident_char c = true /\ lower_ascii c = c.
+Proof.
+  intros c. unfold is_digit, is_upper, is_lower, is_brace, is_us, is_ident_char, is_alnum, is_alpha, is_digit, lower_ascii, is_upper.
+  intro H. destruct ((65 <=? c) && (c <=? 90)) eqn:E; repeat split; lia.
+Qed.
+
+Lemma method_s3_app : forall s d, forallb is_digit d = true -> method_s3 (s ++ 95 :: d) = method_s3 s ++ 95 :: d.
+Proof.
+  intros s d Hd. unfold method_s3.
+  assert (Hf : forall (q : N -> bool), (forall c, is_digit c = true -> q c = true) -> forallb q d = true).
+  { intros q Hq. eapply forallb_imp; [|exact Hd]. exact Hq. }
+  assert (Hnu : forallb noupper (95 :: d) = true).
+  { simpl. apply Hf. intros c Hc. unfold noupper. destruct (digit_facts c Hc) as [H _]. rewrite H. reflexivity. }
+  rewrite filter_app.
+  replace (filter (fun c => negb (is_brace c)) (95 :: d)) with (95 :: d).
+  2:{ symmetry. apply forallb_filter_id. simpl. apply Hf. intros c Hc.
+      destruct (digit_facts c Hc) as [_ [_ [H _]]]. rewrite H. reflexivity. }
+  rewrite camel1_app; [|reflexivity | apply camel1_fix, Hnu].
+  rewrite camel2_app; [|reflexivity | reflexivity | apply camel2_fix, Hnu].
+  rewrite map_app. f_equal. simpl. f_equal.
+  clear -Hd. induction d as [|c d IH]; [reflexivity|]. simpl in *. apply andb_true_iff in Hd. destruct Hd as [Hc Hd].
+  destruct (digit_facts c Hc) as [_ [_ [_ [_ [H _]]]]]. rewrite H, IH by exact Hd. reflexivity.
+Qed.
+
+Lemma map_lower_digits : forall d, forallb is_digit d = true -> map lower_ascii d = d.
+Proof.
+  induction d as [|c d IH]; intro H; [reflexivity|]. simpl in *. apply andb_true_iff in H. destruct H as [Hc Hd].
+  destruct (digit_facts c Hc) as [_ [_ [_ [_ [_ H]]]]]. rewrite H, IH by exact Hd. reflexivity.
+Qed.
+
+Lemma method_core_app : forall s d, forallb is_digit d = true -> d <> [] ->
+  method_core (s ++ 95 :: d) = method_core s ++ (if has_core s then 95 :: d else d).
+Proof.
+  intros s d Hd Hne. unfold method_core, norm_us. rewrite method_s3_app by exact Hd.
+  rewrite norm_go_app_us; [|eapply forallb_imp; [|exact Hd]; intros c Hc; unfold nonus;
+                            destruct (digit_facts c Hc) as [_ [_ [_ [H _]]]]; rewrite H; reflexivity | exact Hne].
+  rewrite map_app. simpl orb. fold (has_core s). f_equal.
+  destruct (has_core s); simpl; rewrite map_lower_digits by exact Hd; reflexivity.
+Qed.
+
+Lemma method_core_no_core : forall s, has_core s = false -> method_core s = [].
+Proof. intros s H. unfold method_core, norm_us. rewrite norm_go_all_us by exact H. reflexivity. Qed.
+
+Lemma method_core_has_core : forall s, has_core s = true -> method_core s <> [].
+Proof.
+  intros s H. unfold has_core in H. apply existsb_exists in H. destruct H as [c [Hin Hc]].
+  unfold method_core, norm_us. intro E. apply map_eq_nil in E. revert E. apply norm_go_nonempty.
+  exists c. split; [exact Hin | apply negb_true_iff, Hc].
+Qed.
